@@ -129,7 +129,7 @@ func (g *pg) strExpr(depth int) lang.Expr {
 		if len(g.strs) > 0 && g.chance("usestr", 50) {
 			return lang.Name{N: rapid.SampledFrom(g.strs).Draw(g.t, "strname")}
 		}
-		return lang.Lit{V: lang.Str(rapid.SampledFrom([]string{"", "a", "b", "ab", "Re: x", "狐犬", "x y"}).Draw(g.t, "strlit"))}
+		return lang.Lit{V: lang.Str(rapid.SampledFrom([]string{"", "a", "b", "ab", "Re: x", "狐犬", "x y", "狐ab", "naïve", "é1", "a→b"}).Draw(g.t, "strlit"))}
 	}
 	switch g.pick("strk", 3) {
 	case 0:
@@ -513,7 +513,20 @@ func (g *pg) stmt(depth int) []lang.Stmt {
 			g.protect[idx] = pi
 		}
 		g.conds = savedConds
-		return []lang.Stmt{lang.Foreach{Idx: idx, Var: v, Iter: it, Body: body}}
+		loop := lang.Foreach{Idx: idx, Var: v, Iter: it, Body: body}
+		if g.chance("readoutside", 12) {
+			// the loop's names read where they are not bound: before the loop
+			// or behind it they are whatever else carries the name, or nothing
+			read := lang.ExprStmt{X: lang.Call{Fn: "trace", Args: []lang.Expr{lang.Name{N: v}}}}
+			if idx != "" {
+				read = lang.ExprStmt{X: lang.Call{Fn: "trace", Args: []lang.Expr{lang.Name{N: v}, lang.Name{N: idx}}}}
+			}
+			if g.chance("readbefore", 50) {
+				return []lang.Stmt{read, loop}
+			}
+			return []lang.Stmt{loop, read}
+		}
+		return []lang.Stmt{loop}
 	case k < 82 && depth > 0 && g.o.Switch:
 		return []lang.Stmt{g.switchStmt(depth)}
 	case k < 86 && g.o.EarlyRet:
